@@ -1,6 +1,7 @@
 package main
 
 import (
+	"net"
 	"bytes"
 	"fmt"
 	"reflect"
@@ -454,9 +455,13 @@ func runC01(c *Ctx) {
 			return "ok"
 		})
 		c.Pred("msg", "msg-roundtrip", in, out == "ok", out, "ok", nt)
+		if out == "ok" && i%4 == 0 {
+			c01PackBuffer(c, "msg", wire)
+		}
 		// the whole-message decoder and plain packer of the Lean model (message_roundtrip, pack_unpack_message) on the same octets
 		msgUnpackCorr(c, "msg", wire)
 	}
+	c01EmptyTails(c, r)
 	// 5. RDATA-less (RFC 2136) records: unpack then pack must reproduce RDLENGTH 0
 	for _, typ := range types {
 		g := &GenRR{Type: typ, Class: []uint16{dns.ClassANY, dns.ClassNONE, 1}[r.Intn(3)], Owner: genLabels(r, 0)}
@@ -477,5 +482,77 @@ func runC01(c *Ctx) {
 			return "ok"
 		})
 		c.Pred("rdlen0", "rdlen0-repack:"+tn, "type="+tn+" wire="+hx(g.Wire), out == "ok", out, "ok", true)
+	}
+}
+
+
+// c01PackBuffer: the sibling entry point PackBuffer writes the octets Pack writes, whatever buffer the caller brings:
+// none, too small, exactly Len(), one more, plenty.
+func c01PackBuffer(c *Ctx, stream string, wire []byte) {
+	var m dns.Msg
+	if m.Unpack(wire) != nil {
+		return
+	}
+	for _, compress := range []bool{false, true} {
+		m.Compress = compress
+		want, err := m.Pack()
+		if err != nil {
+			continue
+		}
+		l := m.Len()
+		for _, n := range []int{0, l - 1, l, l + 1, 2*l + 7} {
+			if n < 0 {
+				continue
+			}
+			out := guard(func() string {
+				got, err := m.PackBuffer(make([]byte, n))
+				if err != nil {
+					return "error: " + err.Error()
+				}
+				if !bytes.Equal(got, want) {
+					return "differs: " + hx(got)
+				}
+				return "ok"
+			})
+			c.Pred(stream, "packbuffer-any-buffer", fmt.Sprintf("compress=%v buffer=Len%+d msg=%s", compress, n-l, hx(wire)), out == "ok", out, "the octets of Pack()", true)
+		}
+	}
+}
+
+// c01EmptyTails: messages whose last record ends in a field that may be empty and then writes nothing (rest-of-RDATA
+// octet strings, TXT lists): the place where one octet of slack in the buffer hides a missing room check
+func c01EmptyTails(c *Ctx, r *Rng) {
+	mk := func(last dns.RR) []byte {
+		m := new(dns.Msg)
+		m.SetQuestion("tail.example.", dns.TypeANY)
+		m.Response = true
+		for k := 0; k < r.Intn(3); k++ {
+			m.Answer = append(m.Answer, &dns.A{Hdr: dns.RR_Header{Name: "tail.example.", Rrtype: dns.TypeA, Class: 1, Ttl: 5}, A: net.IPv4(192, 0, 2, byte(k)).To4()})
+		}
+		m.Answer = append(m.Answer, last)
+		b, err := m.Pack()
+		if err != nil {
+			return nil
+		}
+		return b
+	}
+	h := func(t uint16) dns.RR_Header { return dns.RR_Header{Name: "tail.example.", Rrtype: t, Class: 1, Ttl: 5} }
+	for _, last := range []dns.RR{
+		&dns.URI{Hdr: h(dns.TypeURI), Priority: 1, Weight: 2, Target: ""},
+		&dns.CAA{Hdr: h(dns.TypeCAA), Flag: 0, Tag: "issue", Value: ""},
+		&dns.TXT{Hdr: h(dns.TypeTXT)},
+		&dns.SPF{Hdr: h(dns.TypeSPF)},
+		&dns.AVC{Hdr: h(dns.TypeAVC)},
+		&dns.NINFO{Hdr: h(dns.TypeNINFO)},
+		&dns.NULL{Hdr: h(dns.TypeNULL), Data: ""},
+		&dns.OPENPGPKEY{Hdr: h(dns.TypeOPENPGPKEY), PublicKey: ""},
+		&dns.DHCID{Hdr: h(dns.TypeDHCID), Digest: ""},
+		&dns.EID{Hdr: h(dns.TypeEID), Endpoint: ""},
+		&dns.NSEC{Hdr: h(dns.TypeNSEC), NextDomain: "tail.example."},
+		&dns.OPT{Hdr: dns.RR_Header{Name: ".", Rrtype: dns.TypeOPT, Class: 1232}},
+	} {
+		if w := mk(last); w != nil {
+			c01PackBuffer(c, "empty-tails", w)
+		}
 	}
 }
